@@ -8,6 +8,12 @@
    "subject" field of a manifest ([subj], JSON decoding is external). *)
 From Oras Require Import Base.Prelude Base.Regex Generated.GC20 Model.Reference.
 
+(* Every digest algorithm go-digest knows is linked into the client (the harness imports
+   crypto/sha256 and crypto/sha512): C20's availability parameter is instantiated once. *)
+Definition all_algs (_ : str) : bool := true.
+Definition valid_digest : str -> bool := Reference.valid_digest all_algs.
+Definition repo_parse : (str -> bool) -> str -> str -> str -> option reference := Reference.repo_parse all_algs.
+
 (* ---------- descriptors, requests, responses ---------- *)
 
 Record desc := mkDesc { d_mt : str; d_dg : str; d_sz : N }.
@@ -76,6 +82,11 @@ Definition mt_index := b "application/vnd.oci.image.index.v1+json".
 Definition resp0 (st : N) : response := mkResp st None (Some 0) None None false None [] [].
 (* error responses carry a JSON error body; projected away (no length, no body) *)
 Definition resp_err (st : N) : response := mkResp st None None None None false None [] [].
+
+(* the error code of a 404 is observable to the client in one case: NAME_UNKNOWN (the
+   repository does not exist).  It travels as the body of the abstract error response. *)
+Definition name_unknown : str := b "NAME_UNKNOWN".
+Definition resp_name_unknown : response := mkResp 404 None None None None false None [] name_unknown.
 
 Definition opt_if {A} (c : bool) (x : A) : option A := if c then Some x else None.
 
@@ -206,7 +217,7 @@ Section Registry.
       | HEAD, EBlob d => (g, blob_resp true d (lookup d (g_other g)) None)
       | _, _ => (g, resp_err 405)
       end
-    else (g, resp_err 404).
+    else (g, resp_name_unknown).
 End Registry.
 
 (* ---------- the request grammar of the distribution specification ---------- *)
